@@ -51,3 +51,35 @@ Definition imp_pre_d (b : dual) (ws xs : list dual) : dual :=
 Definition pre_d (c : conn) := match c with CAnd => and_pre_d | COr => or_pre_d | CImp => imp_pre_d end.
 (* one bound of the transparent upward activation, as a dual *)
 Definition act_up_d (c : conn) (b : dual) (ws xs : list dual) : dual := val_clamp_d (pre_d c b ws xs).
+
+(* ---------- formula level: what a connective formula / a quantifier STORES after upward() ----------
+   torch.max / torch.min of two tensors pass the gradient to the larger / smaller argument and split it evenly at a
+   tie; node.py:aggregate_bounds takes max(previous lower, new lower), min(previous upper, new upper), then val_clamp. *)
+Definition dmax2 (a b : dual) : dual :=
+  D (qmax (dv a) (dv b)) (if qltb (dv b) (dv a) then dt a else if qltb (dv a) (dv b) then dt b else (dt a + dt b) / 2).
+Definition dmin2 (a b : dual) : dual :=
+  D (qmin (dv a) (dv b)) (if qltb (dv a) (dv b) then dt a else if qltb (dv b) (dv a) then dt b else (dt a + dt b) / 2).
+Definition agg_lower_d (prev new : dual) : dual := val_clamp_d (dmax2 prev new).
+Definition agg_upper_d (prev new : dual) : dual := val_clamp_d (dmin2 prev new).
+
+(* operand values one bound of the upward activation reads (Implies reads the first operand flipped) *)
+Definition sel_in (c : conn) (lower : bool) (row : list bnd) : list Q :=
+  match c, row with
+  | CImp, [x0; x1] => if lower then [hi x0; lo x1] else [lo x0; hi x1]
+  | CImp, _ => []
+  | _, _ => map (fun x => if lower then lo x else hi x) row
+  end.
+(* the bound a connective formula under the OPEN world stores after one upward() over facts `row` *)
+Definition body_bound_d (c : conn) (b : dual) (ws : list dual) (lower : bool) (row : list bnd) : dual :=
+  let new := act_up_d c b ws (map dconst (sel_in c lower row)) in
+  if lower then agg_lower_d (dconst 0) new else agg_upper_d (dconst 1) new.
+(* the bound a fully quantified OPEN-world Forall / Exists over that body stores after Model.upward(): the unit-weight
+   And / Or neuron over the instances; a Forall computes its upper, an Exists its lower bound only *)
+Definition quant_bound_d (is_forall : bool) (c : conn) (b : dual) (ws : list dual) (lower : bool) (rows : list (list bnd)) : dual :=
+  let ones := repeat (dconst 1) (length rows) in
+  if is_forall then
+    if lower then dconst 0
+    else agg_upper_d (dconst 1) (act_up_d CAnd (dconst 1) ones (map (body_bound_d c b ws false) rows))
+  else
+    if lower then agg_lower_d (dconst 0) (act_up_d COr (dconst 1) ones (map (body_bound_d c b ws true) rows))
+    else dconst 1.
